@@ -552,7 +552,7 @@ example : mergeRanges (sortRanges [(0x12, 0x42), (0, 0x10FFFF), (6, 0x1D)]) = [(
     neither absorb nor be absorbed by a neighbour (CSS Syntax 3 §4.3.1) — and never `/` directly before `*`
     (since e7baddf; before, `c / *d` was written `c/*d`, a comment opener).  No guard: all token lists of the
     lexer's shapes. -/
-theorem writer_sep (vs : List Tok) (important : Bool) (h : ∀ t ∈ vs, TokShape t) :
+theorem writer_sep (vs : List Tok) (important : Bool) (h : ∀ t ∈ vs, TokShape t ∧ EscShape t) :
     ∃ out, writeDeclaration vs important = out ++ (if important then S "!important" else []) ∧
       Joined (vs.map writeArg) out := by
   refine ⟨writeVals none true vs, rfl, ?_⟩
@@ -597,18 +597,26 @@ theorem passthrough_raw (o : Opts) (prop : List Char) (comps : List Tok) (hne : 
     exact absurd h hf
   · rfl
 
-/-- the raw writer is plain concatenation; the only byte it ever adds is the space that keeps `/` and `*` apart -/
-theorem writeRaw_plain (comps : List Tok) (prev : Option (List Char))
-    (h : ∀ p ∈ prev, ∀ t ∈ comps.head?, opensComment p t.data = false)
-    (h2 : ∀ a b, [a, b] <:+: comps → opensComment a.data b.data = false) :
+/-- where the raw writer adds a byte: the space that keeps `/` and `*` apart, and (a933f35) a second space where a
+white-space component follows a token that ends in a hexadecimal escape -/
+def rawGap (p t : Tok) : Bool :=
+  opensComment p.data t.data || (t.tt == .whitespace && escTT p.tt && endsInHexEscape p.data)
+
+/-- the raw writer is plain concatenation except at the gaps of `rawGap` -/
+theorem writeRaw_plain (comps : List Tok) (prev : Option Tok)
+    (h : ∀ p ∈ prev, ∀ t ∈ comps.head?, rawGap p t = false)
+    (h2 : ∀ a b, [a, b] <:+: comps → rawGap a b = false) :
     writeRaw prev comps = (comps.map (·.data)).flatten := by
   induction comps generalizing prev with
   | nil => rfl
   | cons t r ih =>
-    have hstep : writeRaw prev (t :: r) = t.data ++ writeRaw (some t.data) r := by
+    have hstep : writeRaw prev (t :: r) = t.data ++ writeRaw (some t) r := by
       cases prev with
       | none => simp [writeRaw]
-      | some p => simp [writeRaw, h p (by simp) t (by simp)]
+      | some p =>
+        have := h p (by simp) t (by simp)
+        simp only [rawGap, Bool.or_eq_false_iff] at this
+        simp [writeRaw, this.1, this.2]
     rw [hstep]
     simp only [List.map_cons, List.flatten_cons]
     congr 1
@@ -627,13 +635,39 @@ theorem writeRaw_plain (comps : List Tok) (prev : Option (List Char))
       obtain ⟨l1, l2, e⟩ := hab
       exact ⟨t :: l1, l2, by simp [← e]⟩
 
-example : (∀ t ∈ [tNum ['1'], Tok.mk .delim ['/'] [], Tok.mk .delim ['*'] []], TokShape t) ∧
+example : (∀ t ∈ [tNum ['1'], Tok.mk .delim ['/'] [], Tok.mk .delim ['*'] []], TokShape t ∧ EscShape t) ∧
     writeDeclaration [tNum ['1'], Tok.mk .delim ['/'] [], Tok.mk .delim ['*'] []] false = S "1/ *" ∧
     writeDeclaration [tIdent (S "a"), Tok.mk .comma [','] [], tNum ['1'], tNum ['2']] true = S "a,1 2!important" := by
   refine ⟨?_, by decide, by decide⟩
   intro t ht
   simp only [List.mem_cons, List.mem_nil_iff, or_false] at ht
-  rcases ht with h | h | h <;> subst h <;> simp [TokShape, tNum, Tok.tt, Tok.data]
+  rcases ht with h | h | h <;> subst h <;> refine ⟨by simp [TokShape, tNum, Tok.tt, Tok.data], fun he => absurd he (by decide)⟩
+
+/-- a933f35: behind an identifier that ends in a hexadecimal escape the writer puts two spaces (the first belongs to
+the escape); `Joined.space2` -/
+example : writeDeclaration [tIdent (S "a\\31"), tIdent (S "b")] false = S "a\\31  b" ∧
+    writeDeclaration [tIdent (S "a"), tIdent (S "b")] false = S "a b" := by decide
+
+/-- **function arguments are kept apart** (a933f35): where `gluesArgs` says that the lexeme of an argument written
+directly behind the previous one would make one token of the two — an identifier, hash, number, dimension or
+at-keyword followed by a name character, a digit or an escape; an identifier followed by `(`; a number followed by
+`%` or `.5`; a white-space token behind a hexadecimal escape — `writeFunction` writes a space between them.
+(`rgb(255,0,0)10%` had become `red10%`, `1.0.5` `1.5`, `a1.0` `a10`.)  That the written arguments re-tokenise
+to the same tokens is C09's `css_writer_retokenises`. -/
+theorem function_args_apart (ptt : TT) (pdata : List Char) (t : Tok) (r : List Tok)
+    (hp : ptt ≠ .function) (hg : gluesArgs ptt pdata t.tt t.data = true) :
+    writeFunction (some (ptt, pdata)) (t :: r) = ' ' :: (writeArg t ++ writeFunction (some (t.tt, t.data)) r) := by
+  obtain ⟨tt, data, args⟩ := t
+  have h1 : (ptt != TT.function) = true := by simpa using hp
+  simp only [Tok.tt, Tok.data] at hg
+  simp [writeFunction, h1, hg, Tok.tt, Tok.data]
+
+/-- the three inputs of the commit message, as the minifier's tokens reach the writer -/
+example : writeArg (.mk .function (S "f(") [tIdent (S "red"), Tok.mk .percentage (S "10%") []]) = S "f(red 10%)" ∧
+    writeArg (.mk .function (S "f(") [tNum (S "1"), tNum (S ".5")]) = S "f(1 .5)" ∧
+    writeArg (.mk .function (S "f(") [tIdent (S "a1"), tNum (S "0")]) = S "f(a1 0)" ∧
+    writeArg (.mk .function (S "f(") [tNum (S "1"), Tok.mk .delim ['+'] [], tNum (S "2")]) = S "f(1+2)" := by
+  decide
 
 /-! ## (f) background-position -/
 
